@@ -74,6 +74,9 @@ def main():
         if not line:
             continue
         req = json.loads(line)
+        import contextlib, io
+        _guard = contextlib.redirect_stdout(io.StringIO())      # whatever the toolkit prints must not end up in the result stream
+        _guard.__enter__()
         if req['cmd'] == 'replay':
             r = replay(req)
         elif req['cmd'] in ('schemas', 'lemma', 'expr', 'taut', 'resolve'):
@@ -82,6 +85,7 @@ def main():
         else:
             import modules
             r = modules.handle(req)
+        _guard.__exit__(None, None, None)
         sys.stdout.write(json.dumps(r, separators=(',', ':')) + '\n')
     sys.stdout.flush()
 
